@@ -7,26 +7,34 @@ look at the same object) and `Mapped` (the cell holds a declared value).
 -/
 namespace SMV.Store
 
+instance exceptDecEq {α : Type} [DecidableEq α] : DecidableEq (Except Exc α) := fun a b =>
+  match a, b with
+  | .ok x, .ok y => if h : x = y then isTrue (by rw [h]) else isFalse (by intro h'; cases h'; exact h rfl)
+  | .error x, .error y => if h : x = y then isTrue (by rw [h]) else isFalse (by intro h'; cases h'; exact h rfl)
+  | .ok _, .error _ => isFalse (by intro h; cases h)
+  | .error _, .ok _ => isFalse (by intro h; cases h)
+
 /-! ## `states_map` -/
 
-theorem lookupFrom_sound (vs : List Val) (i : Nat) (v : Val) (j : StateId)
+theorem lookupFrom_sound (vs : List Val) (i : Nat) (v : Val) (j : Nat)
     (h : lookupFrom vs i v = some j) : ∃ k, j = i + k ∧ vs[k]? = some v := by
   induction vs generalizing i with
   | nil => simp [lookupFrom] at h
   | cons x xs ih =>
     unfold lookupFrom at h
-    split at h
-    · rename_i j' hj'
-      obtain ⟨k, hk, hv⟩ := ih (i + 1) hj'
-      refine ⟨k + 1, ?_, by simpa using hv⟩
-      have : j' = j := by simpa using h
-      omega
-    · split at h
-      · rename_i hx
-        refine ⟨0, ?_, by simp [hx]⟩
-        have : i = j := by simpa using h
-        omega
-      · simp at h
+    cases h' : lookupFrom xs (i + 1) v with
+    | some j' =>
+      simp only [h'] at h
+      have hj : j' = j := by simpa using h
+      subst hj
+      obtain ⟨k, hk, hv⟩ := ih (i + 1) h'
+      exact ⟨k + 1, by omega, by simpa using hv⟩
+    | none =>
+      simp only [h'] at h
+      by_cases hx : x = v
+      · have hj : i = j := by simpa [hx] using h
+        exact ⟨0, by omega, by simp [hx]⟩
+      · simp [hx] at h
 
 theorem lookupFrom_isSome (vs : List Val) (i : Nat) (v : Val) :
     (lookupFrom vs i v).isSome = true ↔ v ∈ vs := by
@@ -62,13 +70,15 @@ theorem lookupFrom_complete (vs : List Val) (hd : vs.Nodup) (i k : Nat) (v : Val
       simp [hnone, hx]
     | succ k =>
       have := ih hd'.2 (i + 1) k (by simpa using h)
-      simp [this]; omega
+      rw [this]
+      show some (i + 1 + k) = some (i + (k + 1))
+      congr 1; omega
 
 /-- a found state carries the looked-up value (also when values are not distinct) -/
 theorem lookup_value (m : Mach) (v : Val) (s : StateId) (h : lookup m v = some s) :
     s < m.n ∧ valueOf m s = v := by
   obtain ⟨k, hk, hv⟩ := lookupFrom_sound _ _ _ _ h
-  have hs : s = k := by omega
+  have hs : s = k := by rw [hk]; exact Nat.zero_add k
   subst hs
   have hlt : s < m.values.length := by
     rcases Nat.lt_or_ge s m.values.length with h | h
@@ -84,6 +94,7 @@ theorem mapped_valueOf (m : Mach) (s : StateId) (h : s < m.n) : mapped m (valueO
   rw [mapped_iff]
   have : m.values[s]? = some (m.values[s]'h) := List.getElem?_eq_getElem h
   simp [valueOf, List.getD, this]
+  exact List.getElem_mem h
 
 /-- with distinct values the map is the inverse of `value` -/
 theorem lookup_valueOf (m : Mach) (hd : m.values.Nodup) (s : StateId) (h : s < m.n) :
@@ -110,28 +121,30 @@ theorem lookup_of_mapped (m : Mach) (v : Val) (h : mapped m v = true) : ∃ s, l
   unfold Store.setCell Store.cell; cases st.usesUser <;> simp
 
 @[simp] theorem usesUser_setCell (st : Store) (v : Option Val) : (st.setCell v).usesUser = st.usesUser := by
-  unfold Store.setCell; cases h : st.usesUser <;> simp [h]
+  unfold Store.setCell; cases st.usesUser <;> simp
 
 @[simp] theorem supplied_setCell (st : Store) (v : Option Val) : (st.setCell v).supplied = st.supplied := by
-  unfold Store.setCell; cases h : st.usesUser <;> simp
+  unfold Store.setCell; cases st.usesUser <;> simp
 
 /-- the machine and the user look at the same object -/
 def Coherent (st : Store) : Prop := st.supplied = true → st.usesUser = true
 
+instance (st : Store) : Decidable (Coherent st) := by unfold Coherent; infer_instance
+
 theorem Coherent.userView {st : Store} (h : Coherent st) : st.userView = st.cell := by
   unfold Store.userView Store.cell
   cases hs : st.supplied
-  · simp [Store.cell]
+  · simp
   · simp [h hs]
 
 theorem Coherent.userWrite {st : Store} (h : Coherent st) (v : Option Val) : st.userWrite v = st.setCell v := by
   unfold Store.userWrite Store.setCell
   cases hs : st.supplied
-  · simp [Store.setCell]
+  · simp
   · simp [h hs]
 
 theorem Coherent.setCell {st : Store} (h : Coherent st) (v : Option Val) : Coherent (st.setCell v) := by
-  unfold Coherent; simpa using h
+  unfold Coherent at *; simpa using h
 
 /-- no operation changes which object `sm.model` is -/
 theorem step_flags (m : Mach) (op : Op) (st : Store) :
@@ -177,6 +190,11 @@ def Op.valid (m : Mach) : Op → Prop
   | .raw none => False
   | .raw (some v) => mapped m v = true
   | _ => True
+
+instance (m : Mach) (op : Op) : Decidable (op.valid m) := by
+  cases op with
+  | raw v => cases v <;> (simp only [Op.valid]; infer_instance)
+  | _ => exact isTrue trivial
 
 theorem step_Mapped (m : Mach) (op : Op) (st : Store) (hc : Coherent st) (hv : op.valid m)
     (h : Mapped m st) : Mapped m (step m op st).1 := by
